@@ -10,6 +10,10 @@ func GenGraphModel(rng *rand.Rand) *Model {
 	tnames := []string{"user", "doc", "folder", "org"}[:ntypes+1]
 	m := &Model{Schema: "1.1"}
 	relNames := []string{"a", "b", "c", "p", "v"}
+	if rng.Intn(3) == 0 {
+		// relation names that differ only in letter case, and mixed case (orderings must be by byte value)
+		relNames = []string{"a", "A", "b", "B", "Va"}
+	}
 	conds := []string{"", "", "", "c1", "c2"}
 	// which relations each type defines
 	defs := map[string][]string{}
